@@ -225,3 +225,20 @@ theorem nothing_processed_after_go_away_now (fuel : Nat) (c : Conn) (h : Dead c)
 example (c : Conn) (e : Reason) : Halting (c.goAwayFromUser e) := (inert_goAwayFromUser c e).2
 
 end H2V.Props.C15
+
+#print axioms H2V.Props.C15.invariant_initially
+#print axioms H2V.Props.C15.go_away_assert_is_monotonicity
+#print axioms H2V.Props.C15.go_away_now_monotone
+#print axioms H2V.Props.C15.go_away_call_sites
+#print axioms H2V.Props.C15.sent_goaways_monotone
+#print axioms H2V.Props.C15.sent_goaways_compose
+#print axioms H2V.Props.C15.frames_above_cutoff_ignored
+#print axioms H2V.Props.C15.recv_goaway_selects_streams
+#print axioms H2V.Props.C15.recv_goaway_fails_stream_partial
+#print axioms H2V.Props.C15.recv_goaway_increasing_is_error
+#print axioms H2V.Props.C15.no_new_requests_after_goaway
+#print axioms H2V.Props.C15.result_reports_peer_goaway
+#print axioms H2V.Props.C15.graceful_stage1
+#print axioms H2V.Props.C15.graceful_stage2
+#print axioms H2V.Props.C15.graceful_stage3
+#print axioms H2V.Props.C15.nothing_processed_after_go_away_now
